@@ -258,6 +258,10 @@ func init() {
 		st.guardOn = args[0].(*Term).IsTrue()
 		return nil, ctlRet
 	})
+	regRepo("vhCRCMismatch", func(ex *Exec, st *State, fr *Frame, args []Value) (Value, ctlT) {
+		st.crcMismatch = args[0].(*Term).IsTrue()
+		return nil, ctlRet
+	})
 	regRepo("vhConcreteClock", func(ex *Exec, st *State, fr *Frame, args []Value) (Value, ctlT) {
 		st.concreteClock = args[0].(*Term).IsTrue()
 		return nil, ctlRet
